@@ -71,7 +71,7 @@ func (s *Sch) canonical() bool {
 	case "list", "ptr":
 		return s.Elem.canonical()
 	case "nilptr":
-		return false
+		return s.Elem.canonical()
 	case "custom":
 		return (s.CK == "ident" || s.CK == "receiptStatus") && s.Elem.canonical()
 	case "struct":
@@ -275,7 +275,7 @@ func (d *deriver) derive(t reflect.Type, nilOK bool) (*Sch, error) {
 			return nil, err
 		}
 		if nilOK {
-			return &Sch{K: "nilptr", Elem: c, GoT: t}, nil
+			return nil, fmt.Errorf("rlp:\"nil\" pointer to %v: the nil form of a type with a hand-written codec is outside the model", t.Elem())
 		}
 		return &Sch{K: "ptr", Elem: c, GoT: t}, nil
 	case k != reflect.Ptr && hasCodec(t):
@@ -350,6 +350,11 @@ func (d *deriver) derive(t reflect.Type, nilOK bool) (*Sch, error) {
 			return nil, err
 		}
 		if nilOK {
+			switch e.K {
+			case "uint", "bigint", "bool", "bytes", "fixed", "list", "struct":
+			default:
+				return nil, fmt.Errorf("rlp:\"nil\" pointer to %v (%s): nil form not statically known, outside the model", t.Elem(), e.K)
+			}
 			return &Sch{K: "nilptr", Elem: e, GoT: t}, nil
 		}
 		return &Sch{K: "ptr", Elem: e, GoT: t}, nil
